@@ -518,6 +518,16 @@ def check_map(ctx, prog):
                     okk, why = False, 'insert is not confined to the not-found case (i >= 0 false)'
             ctx.check(okk, 'C02.map', f['pq'], name + ':insert at decoded position', fwhere(f), 'inserts at -i-1 only when indexOf() reported absence', why + ' (%s)' % inst)
             ctx.evaluations += 1
+    # the key array stays sorted: no Map member appends to it or inserts at a position that did not come from indexOf()
+    for f in prog.functions:
+        if f.get('clsp') != 'asl::Map' or not f.get('body') or f.get('implicit'):
+            continue
+        apps = [e for e in fn_exprs(f) if e.get('k') == 'call' and e.get('clsp') == 'asl::Array' and e.get('obj') is not None and strip_lv(e['obj']).get('f') == 'a' and
+                strip_lv(strip_lv(e['obj']).get('b') or {'k': 'this'}).get('k') == 'this' and ((e.get('pq') or '').split('::')[-1] in ('operator<<', 'append', 'operator,', 'push', 'put'))]
+        if apps:
+            ctx.analysed(f)
+            ctx.violation('C02.map', f['pq'], f['n'] + f['sig'] + ':entries enter the sorted array through the key search', fwhere(f, apps[0]['l']),
+                          '%s appends an entry to the key array (`%s`) instead of inserting it at the position indexOf() gives: if the keys do not arrive in ascending order (a converting copy can reorder or merge keys) the binary search no longer finds them (%s)' % (f['pq'], pe(apps[0]), f['q']))
     for f in prog.functions:
         if f.get('pq') != 'asl::Map::remove' or not f.get('body'):
             continue
